@@ -8,7 +8,7 @@ from sys import maxsize
 
 from mc.engine import hbfs, par
 from mc.engine.report import Violation
-from mc.engine.seams import Canon
+from mc.engine.seams import Canon, reset_library
 
 import ECAgent.Core as Core
 
@@ -58,6 +58,7 @@ def make_rec(log):
 
 def sweep_case(case):
     start, end, freq, reg, horizon = case['start'], case['end'], case['freq'], case['reg'], case['horizon']
+    reset_library()
     model = Core.Model(seed=1)
     log = []
     Rec = make_rec(log)
@@ -262,4 +263,4 @@ def replay(case):
     if case['leg'] == 'window_sweep':
         hbfs._guard(sweep_case, case)
     else:
-        hbfs.run_history(MultiWithTwin(case['config']['horizon']), case['history'])
+        hbfs.replay_case(MultiWithTwin(case['config']['horizon']), case)
